@@ -32,11 +32,13 @@ import (
 	"bufio"
 	"bytes"
 	"context"
+	"crypto/tls"
 	"encoding/json"
 	"errors"
 	"fmt"
 	"io"
 	"math"
+	"net"
 	"os"
 	"path/filepath"
 	"sort"
@@ -51,6 +53,7 @@ import (
 	"github.com/emersion/go-smtp"
 	"github.com/foxcpp/maddy/framework/buffer"
 	"github.com/foxcpp/maddy/framework/exterrors"
+	"github.com/foxcpp/maddy/framework/future"
 	"github.com/foxcpp/maddy/framework/log"
 	"github.com/foxcpp/maddy/framework/module"
 	"github.com/foxcpp/maddy/internal/verifshim/vh"
@@ -136,6 +139,77 @@ func c02AddrG(env byte, idx int, id string, apad int) string {
 type c02Grow struct {
 	apad, epad int
 	tm         c02Sched // the retry schedule the queue is configured with (token `W…`; rides along with the size dimension)
+	conn       int      // the origin of the accepted messages (token `Y<k>`, c02Origin; rides along like `W`)
+}
+
+// c02Origin: where the messages of a `run` scenario come from — the module.MsgMetadata the transaction is started
+// with.  0 (no token) is what the harness always used: no connection state, DontTraceSender set.  The other forms are
+// the ones the endpoints of a running server produce; the stored meta-data record has to be loadable by the next
+// process for every one of them (the queue's own encoder / decoder pair decides that, not the harness).
+//
+//	Y1 mail received by the MX endpoint from a network peer: Conn with TCP addresses (IPv4), HELO name, ESMTP, traced
+//	Y2 the same over TLS from an IPv6 peer (zone set), with a resolved rDNS future, traced
+//	Y3 Submission: Conn with addresses, AuthUser / AuthPassword set, DontTraceSender
+//	Y4 locally generated but traced: no Conn, DontTraceSender false
+//	Y5 LMTP over a unix socket (net.UnixAddr), rDNS future that resolved to nil, traced
+//	Y6 Conn present but without addresses (a source that only knows the protocol), traced
+func c02Origin(k int, id string) (conn *module.ConnState, dontTrace bool) {
+	switch k {
+	case 1:
+		return &module.ConnState{Proto: "ESMTP", Hostname: "peer.example.org",
+			LocalAddr:  &net.TCPAddr{IP: net.IPv4(192, 0, 2, 1), Port: 25},
+			RemoteAddr: &net.TCPAddr{IP: net.IPv4(198, 51, 100, 7), Port: 41234}}, false
+	case 2:
+		f := future.New()
+		f.Set("peer6.example.org", nil)
+		c := &module.ConnState{Proto: "ESMTPS", Hostname: "[IPv6:2001:db8::7]",
+			LocalAddr:  &net.TCPAddr{IP: net.ParseIP("2001:db8::1"), Port: 25},
+			RemoteAddr: &net.TCPAddr{IP: net.ParseIP("fe80::7"), Port: 50000, Zone: "eth0"},
+			RDNSName:   f}
+		c.TLS.HandshakeComplete = true
+		c.TLS.Version = tls.VersionTLS13
+		c.TLS.CipherSuite = tls.TLS_AES_128_GCM_SHA256
+		c.TLS.ServerName = "mx.example.org"
+		return c, false
+	case 3:
+		return &module.ConnState{Proto: "ESMTPSA", Hostname: "laptop.local",
+			LocalAddr:  &net.TCPAddr{IP: net.IPv4(192, 0, 2, 1), Port: 587},
+			RemoteAddr: &net.TCPAddr{IP: net.IPv4(203, 0, 113, 9), Port: 60111},
+			AuthUser:   "user@example.org", AuthPassword: "secret-" + id}, true
+	case 4:
+		return nil, false
+	case 5:
+		f := future.New()
+		f.Set(nil, nil)
+		return &module.ConnState{Proto: "LMTP", Hostname: "localhost",
+			LocalAddr:  &net.UnixAddr{Name: "/run/maddy/lmtp.sock", Net: "unix"},
+			RemoteAddr: &net.UnixAddr{Name: "@", Net: "unix"}, RDNSName: f}, false
+	case 6:
+		return &module.ConnState{Proto: "ESMTP", Hostname: "nowhere.example.org"}, false
+	}
+	return nil, true
+}
+
+func c02OriginToken(k int) string {
+	if k == 0 {
+		return ""
+	}
+	return "Y" + strconv.Itoa(k)
+}
+
+func c02ParseOrigin(t string) (int, bool) {
+	if len(t) != 2 || t[0] != 'Y' || t[1] < '1' || t[1] > '6' {
+		return 0, false
+	}
+	return int(t[1] - '0'), true
+}
+
+// c02GenOrigin: a third of the `run` scenarios accept mail that has an origin; half of those the MX case.
+func c02GenOrigin(r *vh.Rng) int {
+	if !r.Chance(34) {
+		return 0
+	}
+	return []int{1, 1, 2, 2, 1, 3, 4, 5, 6, 5}[r.Intn(10)]
 }
 
 func (g c02Grow) token() string {
@@ -144,6 +218,9 @@ func (g c02Grow) token() string {
 		t = append(t, fmt.Sprintf("G%d,%d", g.apad, g.epad))
 	}
 	if s := g.tm.token(); s != "" {
+		t = append(t, s)
+	}
+	if s := c02OriginToken(g.conn); s != "" {
 		t = append(t, s)
 	}
 	return strings.Join(t, " ")
@@ -1117,7 +1194,8 @@ func c02RunSegment(in c02SegIn) c02SegOut {
 	accept := func(a c02Accept) {
 		ctx := context.Background()
 		from := c02Sender(a.envL())
-		meta := &module.MsgMetadata{ID: a.id, OriginalFrom: from, DontTraceSender: true}
+		meta := &module.MsgMetadata{ID: a.id, OriginalFrom: from}
+		meta.Conn, meta.DontTraceSender = c02Origin(in.grow.conn, a.id)
 		meta.SMTPOpts.UTF8 = c02EnvUTF8(a.envL())
 		d, err := q.Start(ctx, meta, from)
 		if err != nil {
@@ -1582,16 +1660,30 @@ func c02Events(lg []*vos.Entry, c c02Cut) []string {
 
 // c02MetaNull: does the stored metadata carry the null reverse-path (no failure report possible)?
 func c02MetaNull(data []byte) bool {
-	m := &QueueMetadata{MsgMeta: &module.MsgMetadata{}}
+	m := &c02MetaRec{}
 	if err := json.NewDecoder(bytes.NewReader(data)).Decode(m); err != nil || m.MsgMeta == nil {
 		return false
 	}
 	return m.MsgMeta.OriginalFrom == ""
 }
 
+// c02MetaRec: the monitor's OWN reading of a stored meta-data record — only the fields the accounting needs, decoded
+// without the queue's types: whether the NEXT process can load what this one stored (interface-typed fields, custom
+// (un)marshalers …) is the queue's obligation, not something the monitor may take from the queue's decoder.  A record
+// that is a JSON object naming its recipients is a stored message; a queue that skips it has lost it.
+type c02MetaRec struct {
+	MsgMeta *struct {
+		ID           string
+		OriginalFrom string
+	}
+	From       string
+	To         []string
+	TriesCount map[string]int
+}
+
 // c02MetaTo parses a .meta file: recipient indexes and their attempt counters.
 func c02MetaTo(data []byte, id string) (to []string, tries []string, ok bool) {
-	m := &QueueMetadata{MsgMeta: &module.MsgMetadata{}}
+	m := &c02MetaRec{}
 	if err := json.NewDecoder(bytes.NewReader(data)).Decode(m); err != nil {
 		return nil, nil, false
 	}
@@ -2564,6 +2656,7 @@ func c02GenScenario(r *vh.Rng) c02Scenario {
 	sc.par = []int{1, 2, 1, 2, 4}[r.Intn(5)]
 	sc.loc = c02GenLoc(r)
 	sc.grow.tm = c02GenSched(r)
+	sc.grow.conn = c02GenOrigin(r)
 	hls := c02HeaderLens()
 	base := hls[2]
 	two := len(c02HeaderBytes(c02MakeHeader(0)))
@@ -2670,6 +2763,7 @@ func c02GenBigScenario(r *vh.Rng, class int) c02Scenario {
 		sc.loc = c02GenLoc(r)
 	}
 	sc.grow.tm = c02GenSched(r)
+	sc.grow.conn = c02GenOrigin(r)
 	hls := c02HeaderLens()
 	a := c02Accept{id: "a1", n: sz[0], hl: hls[2], bl: []int{7, 0, 300}[r.Intn(3)], fate: 'c', env: "pppnim"[r.Intn(6)]}
 	sc.accepts = []c02Accept{a}
@@ -2809,6 +2903,7 @@ func c02RunScenario(out *vh.Out, sc c02Scenario, r *vh.Rng, seen *sync.Map, only
 	out.Stat(fmt.Sprintf("scenario.recovery-max-parallelism.%d", x.parOr4()))
 	out.Stat(fmt.Sprintf("scenario.spool-dir-name.%d", sc.loc))
 	c02SchedStat(out, "scenario", sc.grow.tm)
+	out.Stat("scenario.origin." + []string{"none(no-Conn,untraced)", "mx-tcp4", "mx-tls-tcp6-rdns", "submission-auth", "local-traced", "lmtp-unix", "conn-without-addresses"}[sc.grow.conn])
 	x.explore(seg0, false, hist, 1)
 }
 
@@ -2895,9 +2990,11 @@ func c02Replay(out *vh.Out, op string, seen *sync.Map) {
 		case t[0] == 'L':
 			sc.loc, _ = c02ParseLoc(t)
 		case t[0] == 'G':
-			tm := sc.grow.tm
+			tm, cn := sc.grow.tm, sc.grow.conn
 			sc.grow, _ = c02ParseGrow(t)
-			sc.grow.tm = tm
+			sc.grow.tm, sc.grow.conn = tm, cn
+		case t[0] == 'Y':
+			sc.grow.conn, _ = c02ParseOrigin(t)
 		case t[0] == 'W':
 			sc.grow.tm, _ = c02ParseSched(t)
 		case t == "Q":
